@@ -7,6 +7,14 @@ NOTES = ("All checks: bin/check <id>. Each run regenerates coq/Gen from /repo, r
          "Known findings: KNOWN_FINDINGS.txt.")
 NOT_APPLICABLE = {}
 CLAIMED = {
+    "C14": {
+        "text": "Theorems: the ToObfuscate decision never selects runtime deps (table proved to cover `go list -deps runtime` of the toolchain in use), "
+                "otherwise equals the GOGARBLE match; the matcher equals a relational glob spec, `*` matches everything, a plain path selects exactly "
+                "its subtree; unselected packages keep name/import path; the matches-nothing error is characterised. Tied by translator (std tables) "
+                "and black-box `garble map` over generated package lists x pattern lists (stub go), plus a real mixed-module build scanned for markers.",
+        "note": "Trusted: Coq kernel; glob model = path.Match on the class/escape-free fragment; stub go; marker scan of one real build. No axioms.",
+        "technique": "Coq proof over hand model + regenerated std tables; in-Coq correspondence with black-box garble map; e2e mixed build",
+    },
     "C20": {
         "text": "Theorems over tables regenerated from main.go and from the go command in use: garble's flag/package split equals the go "
                 "command's (package flag's parseOne) for every accepted argv of any length and spelling; the split is a partition so the go "
